@@ -19,7 +19,7 @@
 (* specification's compiler emits, so that the harness can compare it with *)
 (* the bytes the real compiler emits (a drift diagnostic, not a verdict).  *)
 (***************************************************************************)
-EXTENDS MC_Expr, Compiler
+EXTENDS MC_Expr, Compiler, VMShape
 
 CONSTANTS Mode,            \* "typed" | "untyped"
           RejectOverflow   \* BOOLEAN
@@ -63,6 +63,15 @@ RunsClean ==
     \A asg \in Assignments(Mentions(Tree)) :
       LET s == RunToEnd(Prog(Tree), EnvOf(asg), DefaultBudget, {})
       IN NoUnderflow(s) /\ CleanExit(s) /\ MemoryNonNegative(s) /\ s.status # "fuel"
+
+(* The stack-shape machine (VMShape.tla) abstracts the value-level machine: every step VM!Step takes from a   *)
+(* running state is, projected on (ip, depth, scope depth), a ShapeNext step, and the value-level machine      *)
+(* underflows only where the shape machine says the instruction needs more than the stack holds.  This is what *)
+(* makes a trace accepted by Trace_Shape a trace the value-level design could produce, as far as C05 goes.     *)
+ShapeAbstracts ==
+  (Complete /\ Accepted(Tree)) =>
+    \A asg \in Assignments(Mentions(Tree)) :
+      ShapeRun(BeginRun(Fresh(DefaultBudget), DefaultBudget, {}), Prog(Tree), EnvOf(asg), 5000)
 
 (* C05 "oversize": every expression that contains the long literal, with what *)
 (* the small-scope compiler as designed does with it (ovf: rejected because a *)
